@@ -13,7 +13,7 @@ from props.stack_common import Stack, gen_stack, run_asgi, run_wsgi
 
 PROPERTY = 'C04'
 LEVEL = 'fault_enumeration'
-RUNS = {'quick': 5000, 'thorough': 200000}
+RUNS = {'quick': 9000, 'thorough': 300000}
 SWEEP = True
 SWEEP_CAP = {'quick': 24, 'thorough': 64}
 BATCH = 100
